@@ -18,7 +18,7 @@ const sdkDenomRegex = `^[a-zA-Z][a-zA-Z0-9/:._-]{2,127}$`
 func init() {
 	Register(&Prop{ID: "C33", Title: "Vouchers can always return over their channel as the original token",
 		Technique: "regular-language decision (product automata over the validators' own expressions, read from the source): does the v1 denomination-path parser split any base denomination that the origin chain accepts for transfer; plus abstract interpretation (go/ssa): release of the denomination minus its first hop from the receiving channel's escrow, decoding of v1 packet data through that parser, packet data built from the stored full denomination of a voucher",
-		LevelText: "Decides (1) whether some denomination accepted by MsgTransfer validation as a native base denomination (cosmos-sdk default denom expression, not ibc/…) is split by ExtractDenomFromPath into a non-empty trace with a non-blank base — for such a denomination the returning voucher is mapped to ibc/hash(remaining path) instead of the native denomination and cannot be released; the language question is decided exactly from the channel/client identifier expressions in the source and the parser's hop condition, and a witness is produced; (2) that on a returning packet the origin releases amount×(denomination minus first hop) from the receiving channel's escrow to the receiver; (3) that v1 packet data is decoded through ExtractDenomFromPath after validation and a voucher is sent with the full path stored for its hash. Does not decide liveness ('can always') beyond these necessary conditions.",
+		LevelText: "Decides (1) whether some denomination accepted by MsgTransfer validation as a native base denomination (cosmos-sdk default denom expression, not ibc/…) is split by ExtractDenomFromPath into a non-empty trace with a non-blank base — for such a denomination the returning voucher is mapped to ibc/hash(remaining path) instead of the native denomination and cannot be released; the language question is decided exactly from the channel/client identifier expressions in the source and the parser's hop condition, and a witness is produced; (2) that on a returning packet the origin releases amount×(denomination minus first hop) from the receiving channel's escrow to the receiver; (3) that v1 packet data is decoded through ExtractDenomFromPath after validation and a voucher is sent with the full path stored for its hash; (4) that the transfer application nowhere compares the length of the full path, the number of hops or the number of separators with a constant (other than an emptiness test): every hop enlarges these, so such a bound would refuse the return of a voucher whose forward transfer was accepted. Does not decide liveness ('can always') beyond these necessary conditions.",
 		Note:      "go/types + go/ssa + regexp/syntax; cosmos-sdk default denom regex assumed", Design: "§5 C33", Run: runC33})
 	Register(&Prop{ID: "C34", Title: "Denomination paths round-trip and determine voucher names",
 		Technique: "abstract interpretation (go/ssa): composition of IBCDenom/Hash/Path, key of the denomination store, agreement of the separator used by the path writer, the hop printer and the path parser, adjacency of the parts the parser pairs into hops; exact unambiguity decision (automata) of the escrow-address preimage layout over the identifier alphabet",
@@ -32,6 +32,8 @@ func runC33(c *Ctx) {
 	if e == nil {
 		return
 	}
+	// ---- (0) no fixed bound on a quantity that grows with every hop
+	c.c33SizeBounds(which)
 	// ---- (1) native denominations that the path parser splits
 	chanRE, pos1 := c.regexLiteral(which, "core/04-channel/types", "IsChannelIDFormat")
 	cliRE, _ := c.regexLiteral(which, "core/02-client/types", "IsClientIDFormat")
